@@ -850,6 +850,10 @@ snarf_dtlst(const char *eof, const char *vp, const char *const ep)
 		if (UNLIKELY(echs_instant_0_p(in) || on == NULL)) {
 			continue;
 		}
+		if (UNLIKELY(in.d > (echs_scale_ndim(s, in.y, in.m) ?: 31U))) {
+			/* no such day, as with DTSTART */
+			continue;
+		}
 		/* attach zone (if any) and only if there's no zone indicator */
 		if (on >= eod || *on != 'Z') {
 			in = echs_instant_attach_tzob(in, z);
